@@ -34,6 +34,8 @@ func c12(c *Ctx) {
 	c12R9(c)
 	noSendUnderConsensusLock(c, "R10")
 	setRoundRule(c, "R11")
+	shared(c, "C07", c07R4)
+	shared(c, "C03", c03R3, c03R5)
 }
 
 func isResChSend(ins ssa.Instruction) bool {
